@@ -218,6 +218,11 @@ def make(n, kinds, jobs_hi, sigterm_bit=True, orders="rev"):
                 got = [t for t, s in p.killed if s == int(signal.SIGTERM) and t >= t_inj]
                 g.require(bool(got) or p.state == "reaped", "abort:running-task-not-terminated@" + func,
                           "%s (pid %d) was running and never received SIGTERM; %s" % (p.name, pid, ctxt))
+            for pid in running_at:
+                p = kern.procs[pid]
+                g.require(p.state != "run", "abort:task-survives-the-abort@" + func,
+                          "%s (pid %d) is still running after cond exited: SIGTERM was sent but blocked by the signal mask the "
+                          "task inherited (%s); %s" % (p.name, pid, sorted(getattr(p, "blocked", ())), ctxt))
             for p in kern.tasks():
                 if p.pid not in running_at and p.state == "run" and p.t_spawn >= t_inj:
                     # spawned after the signal arrived (the abort was swallowed or ignored)
